@@ -181,6 +181,9 @@ func ver(d map[string]string) int {
 	if d == nil {
 		return 0
 	}
+	if len(d) == 0 {
+		return 9 // empty data: what a deleted ConfigMap leaves (Watchers!Empty)
+	}
 	v, _ := strconv.Atoi(d["v"])
 	return v
 }
